@@ -102,6 +102,15 @@ T_C04_SendOnlyToMarked == Observed => \A k \in 1..Len(DL) : (Len(DL[k]) >= 9 => 
 T_C04_BitsTrueWhenCalm ==
   (Observed /\ obs.ev = "step" /\ obs.q /\ running /\ St.wq = <<>> /\ St.cmdq = <<>>) =>
      \A i \in Workers : (InHandles(i) /\ alive[i] /\ Load(i) < Limit /\ counter[i] <= Limit) => avail[i]
+\* the rotation cursor survives every change of the handle list (a fault removes, a restart appends): two consecutive
+\* connections go to the same worker only if the second was re-routed after a failed send, if fewer than two workers
+\* were left in the rotation after the first, or if the rotation had to step over a worker marked unavailable
+\* (DL[k][10] = handles in the rotation right after dispatch k, measured at the inc yield point; DL[k][11] = every handle
+\* was marked available at the last turn of dispatch k)
+T_C04_NoImmediateRepeat == Observed =>
+  \A k \in 1..(Len(DL) - 1) :
+     (Len(DL[k + 1]) >= 11 /\ DL[k][2] = DL[k + 1][2] /\ DL[k][6] = DL[k + 1][6] /\ ~DL[k + 1][5] /\ DL[k][10] >= 2)
+        => ~DL[k + 1][11]
 T_C04_SaturatedGetsNothing == Observed =>
   /\ C02_Bound
   /\ ~everFaulted => \A k \in 1..Len(DL) : DL[k][4] <= Limit
